@@ -189,10 +189,30 @@ def check_while(ctx, f, nd, i):
                         run.refute('R-PROG', f, role + ':bound-stable', n.lineno,
                                    'the bound %s of the loop at line %d is modified in its body' % (show(bound), nd.lineno),
                                    inputs='any input reaching the loop')
-    bad = []
+    def radix_ok(t):
+        """constant >= 2, or a parameter of a private helper that receives only constants >= 2 -> True; provably < 2 -> False;
+        anything else -> None (cannot tell)"""
+        t0 = t
+        if is_call(t0, 'builtins.str') and len(t0[2]) == 1:
+            t0 = t0[2][0]
+        if t0[0] == 'c':
+            try:
+                return int(t0[1]) >= 2
+            except (TypeError, ValueError):
+                return None
+        if t0[0] == 'v' and t0[2] == 'P':
+            vals, unknown = ctx.param_values(f, t0[1])
+            if vals and not unknown:
+                try:
+                    return all(int(v) >= 2 for v in vals)
+                except (TypeError, ValueError):
+                    return None
+        return None
+    bad, unsure = [], []
     for p, k in back:
         events, env = walk_path(f, p)
         ok = False
+        maybe = False
         for e in events:
             if e.name != v:
                 continue
@@ -205,27 +225,37 @@ def check_while(ctx, f, nd, i):
             elif kind == 'lt' and e.kind == 'def':
                 pass
             elif kind == 'gt0':
-                if e.kind == 'aug' and e.term[0] == 'bin' and e.term[1] == '//' and e.extra[0] == 'c' and e.extra[1] >= 2:
-                    ok = True
+                rb = None
+                if e.kind == 'aug' and e.term[0] == 'bin' and e.term[1] in ('//', '>>'):
+                    rb = True if e.term[1] == '>>' and e.extra[0] == 'c' and e.extra[1] >= 1 else radix_ok(e.extra)
                 if e.kind == 'def' and e.term[0] == 'item' and e.term[2] == 0 and is_call(e.term[1], 'builtins.divmod') \
-                        and len(e.term[1][2]) == 2 and e.term[1][2][1][0] == 'c' and e.term[1][2][1][1] >= 2:
+                        and len(e.term[1][2]) == 2:
+                    rb = radix_ok(e.term[1][2][1])
+                if rb is True:
                     ok = True
+                elif rb is None and (e.kind == 'aug' or (e.kind == 'def' and e.term[0] == 'item')):
+                    maybe = True
             elif kind == 'str0':
                 if e.kind == 'def' and e.term[0] == 'item' and e.term[2] == 0 and call_name(e.term[1]) and \
                         call_name(e.term[1]).endswith('.calculus_division'):
                     base = call_arg(e.term[1], 1, 'base')
-                    if base is not None and base[0] == 'c' and isinstance(base[1], str) and base[1].isdigit() \
-                            and int(base[1]) >= 2:
+                    rb = radix_ok(base) if base is not None else None
+                    if rb is True:
                         ok = True
+                    elif rb is None:
+                        maybe = True
         if not ok:
             tests = [(n.lineno, pol) for n, pol in path_decisions(f, p)]
-            bad.append(tests)
+            (unsure if maybe else bad).append(tests)
     if bad:
         run.refute('R-PROG', f, role, nd.lineno,
                    "%d of %d paths through the loop body reach the back edge without advancing the variant `%s` "
                    "(branch decisions (line, taken): %s): the loop spins forever on inputs that drive that path"
                    % (len(bad), len(back), v, bad[0]), extracted={'variant': v, 'paths': len(back)},
                    inputs='inputs that select that arm, e.g. a first nucleotide that is not an arc of the start vertex')
+    elif unsure:
+        run.undecided('R-PROG', f, role, nd.lineno,
+                      'the variant `%s` is divided by a quantity whose value (>= 2?) is not known statically' % v)
     else:
         run.ok('R-PROG', f, role, nd.lineno, 'variant `%s` advances on all %d back-edge paths' % (v, len(back)),
                extracted={'variant': v, 'kind': kind, 'paths': len(back)})
@@ -541,6 +571,36 @@ def r_cand(ctx):
                         if has_step and dfalse.node in pth:
                             allok = False
                     okflag = allok
+        if not okflag:
+            # for ... else form: the append sits in the else block of its tail loop, which runs only when the loop was not
+            # left by break; the break paths must be exactly the paths without a walk step
+            for lp in f.nodes:
+                if lp.kind == 'for' and lp.stmt.orelse and any(x is nd.stmt for s_ in lp.stmt.orelse for x in ast.walk(s_)):
+                    stepn = {s.node.id for s in steps}
+                    allok, nb = True, 0
+                    for pth, k in ctx.body_paths(f, lp.id):
+                        has_step = any(n in stepn for n in pth)
+                        if k == 'break':
+                            nb += 1
+                            allok = allok and not has_step
+                        elif k == 'back':
+                            allok = allok and has_step
+                    okflag = allok and nb > 0
+        if not okflag:
+            # refute only with a witness: the append depends on nothing the tail walk computes (no condition at all besides
+            # has_indel), or its flag is never set to False anywhere; any other shape is outside what this rule decides
+            dep = [a for a, pol in conds if a != ('v', 'has_indel', 'P') and a[0] != 'c']
+            never_false = False
+            for a, pol in flags:
+                defs = [f.defs[i] for i in a[2]]
+                vals = [TermBuilder(f, d.node).def_term(d.id) for d in defs]
+                if vals and all(v == ('c', True) for v in vals):
+                    never_false = True
+            if dep and not never_false:
+                run.undecided('R-CAND', f, '%s:appended-only-when-tail-walk-stayed-on-arcs' % tag, nd.lineno,
+                              'the append is conditioned on %s, which is not a recognised reliability flag'
+                              % [show(a)[:50] for a in dep][:2])
+                continue
         run.check(okflag, 'R-CAND', f, '%s:appended-only-when-tail-walk-stayed-on-arcs' % tag, nd.lineno,
                   'append is under a flag that is cleared on every non-arc symbol of the tail walk',
                   'the %s candidate is appended without a reliability flag that is cleared exactly on the non-arc paths of '
